@@ -5,12 +5,12 @@ def build(tier):
     obs = []
     base = dict(ext_t=False, ext_m=False, sep2=False, excl_root=False, out_i=0)
     # C17.a relational: other listing order / other working directory + relative input path => identical writes
-    for sk in (["S1", "S2q"] if quick else ["S1", "S2", "S2b", "S3"]):
+    for sk in (["S1r", "S2q"] if quick else ["S1r", "S1", "S2", "S2b", "S3"]):
         for rec in (False, True):
-            if sk == "S1" and rec:
+            if sk in ("S1", "S1r") and rec:
                 continue
-            obs.append(trees.tree_ob("C17.a", sk, "rel", dict(base, recursive=rec, auto_ex=False, has_prefix=False), fixexcl=(sk != "S1"),
-                                     timeout=400 if quick else 2400))
+            obs.append(trees.tree_ob("C17.a", sk, "rel", dict(base, recursive=rec, auto_ex=False, has_prefix=False), fixexcl=(sk not in ("S1", "S1r")),
+                                     timeout=600 if quick else 2400))
     obs.append(trees.tree_ob("C17.a", "S6", "rel", dict(base, recursive=True, auto_ex=False, has_prefix=False), fixexcl=True, timeout=400 if quick else 2400,
                              note=" (names differing only in letter case)"))
     obs.append(trees.tree_ob("C17.a", "S1", "rel", dict(base, recursive=False, auto_ex=True), fixexcl=True, timeout=400 if quick else 2400, note=" (prefix)"))
